@@ -45,6 +45,8 @@ DOCS = [
    ["body", "", [["div", "r=r1", [["p", "b e", [S("A", "")]]]], ["div", "r=r1", [["p", "", [S("B", "")]]]], ["div", "r=r2", [["p", "", [S("C", "")]]]]]]),
   ("align-and-line", RG, ["body", "", [["div", "r=r1", [["p", "b e ta=center", [S("A", "")]]]], ["div", "r=r2", [["p", "e ta=end dir=rtl", [S("B", "")]]]],
                                       ["div", "r=r3", [["p", "ta=start", [S("C", "")]]]]]]),
+  ("two-regions-two-p-each", [["r1", ""], ["r2", ""]],
+   ["body", "", [["div", "r=r1", [["p", "b", [S("A", "")]], ["p", "", [S("B", "")]]]], ["div", "r=r2", [["p", "e", [S("C", "")]], ["p", "", [S("D", "")]]]]]]),
   ("styles-2", R1, ["body", "", [["div", "r=r1", [["p", "b e", [S("A", "c=red"), S("B", "bg=red"), S("C", "fs=italic td=underline"), S("D", "fw=bold fs=italic td=underline c=blue bg=blue")]]]]]]),
 ]
 
